@@ -140,6 +140,13 @@ def _read(ck, p, byk):
         ok = rec and from_line and pushed_parsed
         detail += "; parses each line as %s (same type as written)=%s; line comes from lines().next()=%s; parsed record pushed at the end=%s" % (ty, rec, from_line, pushed_parsed)
     ck.decide(rule, "Stats::read", ok, f.span, detail)
+    # file order is record order: the record vector only ever receives `push`
+    if pushes:
+        from .c13 import ops_on, _base_local
+        rl = _base_local(f, pv, pushes[0][1]["args"][0])
+        ops = sorted({m for m, _, _ in ops_on(f, pv, rl)})
+        reorder = [m for m in ops if m not in ("push", "new", "with_capacity", "len", "is_empty", "reserve", "shrink_to_fit", "capacity", "deref", "iter", "as_slice")]
+        ck.decide(rule, "Stats::read:order", not reorder, f.span, "operations on the record vector in read(): %s%s" % (ops, "" if not reorder else " - %s changes the order or the set of the records after they were read: reading back no longer yields the records in the order they were written (two appended batches are not their concatenation)" % reorder))
 
 
 def _append(ck, p, byk):
